@@ -197,3 +197,13 @@ PROPS["C08"] = dict(
     modelled="pkg/api/utils/closed_sets_finder.go (Process, ensureWantsAreReachable, findCommons, enqueueWants, findClosedSetOfObjects, CommitsToSend, TablesToSend), CommitsQueue.PopUntil",
     assumptions=["Go's random map iteration order over pending wants and unstable sort of the initial queue: model and implementation are compared as sets, the property clauses are evaluated on the implementation's actual list"],
 )
+
+PROPS["C07"] = dict(
+    lean_modules=["WrglModel.Props.C07"],
+    quick_n=160, thorough_n=2500,
+    rule="source repositories with 2..4 tables (3..520 rows; variants sharing leading blocks), DAGs of 1..7 commits, destination pre-populated with an ancestor-closed "
+         "commit subset plus stray blocks, commits to send parent-first (sometimes with a repeat), some commits without their table, max packfile size 1 / default / 20..3020 bytes; "
+         "real ObjectSender -> packfile bytes -> PackfileReader -> ObjectReceiver between two stores; non-trivial = stray blocks at the destination or a small size limit; distinct = distinct (op, input)",
+    modelled="pkg/api/utils/object_sender.go (NewObjectSender, enqueueNextCommit, enqueueTable, WriteObjects' size cut), object_receiver.go (saveBlock/saveTable/saveCommit acceptance conditions, Receive)",
+    assumptions=["object contents are abstract in the model (identities and sizes); byte identity, re-indexing and profiles are compared on the implementation", "s2 round-trips block bytes"],
+)
